@@ -311,6 +311,53 @@ pub fn held_case(entries: u32, flags: u32, extra: u32, take: u32, r: &mut Report
     }
 }
 
+/// `needs_wakeup()` is exactly the NEED_WAKEUP bit of the SQ flags word, whatever the kernel keeps in its other
+/// bits (CQ_OVERFLOW, TASKRUN): a poller that sleeps while an overflow backlog exists must still be woken, or
+/// flushed entries are never consumed.  Sequential, over harness memory (rusl's verif-hooks constructor).
+pub fn needs_wakeup_truth_table(r: &mut Report) {
+    use rusl::platform::VerifRingParts;
+    for word in 0u32..8 {
+        r.eval();
+        r.nontrivial_unique();
+        let mut w = Box::new([0u32; 16]);
+        w[2] = word;
+        let mut sqe = Box::new([0u8; 128]);
+        let mut cqe = Box::new([0u8; 32]);
+        let p = w.as_mut_ptr();
+        let got = catch(|| unsafe {
+            let ring = IoUring::verif_from_raw_parts(VerifRingParts {
+                fd: fd_of(0),
+                flags: P::IORING_SETUP_SQPOLL,
+                sq_khead: p,
+                sq_ktail: p.add(1),
+                sq_kflags: p.add(2),
+                sq_kdropped: p.add(3),
+                sq_array: p.add(4),
+                sq_entries: sqe.as_mut_ptr().cast(),
+                sq_ring_entries: 1,
+                sq_local_head: 0,
+                sq_local_tail: 0,
+                cq_khead: p.add(5),
+                cq_ktail: p.add(6),
+                cq_koverflow: p.add(7),
+                cq_entries: cqe.as_mut_ptr().cast(),
+                cq_ring_entries: 1,
+            });
+            ring.needs_wakeup()
+        });
+        let want = word & 1 != 0;
+        let cj = json!({"phase": "ringflags", "scenario": "needs_wakeup-truth-table", "op": "needs_wakeup", "word": word});
+        match got {
+            Ok(g) if g == want => r.outcome("needs_wakeup:equals-the-NEED_WAKEUP-bit"),
+            Ok(g) => {
+                let key = if want { "C17:needs_wakeup:ignores-bit-when-other-flags-set" } else { "C17:needs_wakeup:true-without-bit" };
+                r.violation(key, format!("SQ flags word {word:#05b} (NEED_WAKEUP {}, CQ_OVERFLOW {}, TASKRUN {}): needs_wakeup() = {g}", word & 1, (word >> 1) & 1, (word >> 2) & 1), cj);
+            }
+            Err(pn) => r.violation("C17:needs_wakeup:panic", format!("needs_wakeup() with flags word {word:#x} panicked: {pn}"), cj),
+        }
+    }
+}
+
 pub fn held_cases(th: bool) -> Vec<(u32, u32, u32, u32)> {
     let (s, c) = (P::IORING_SETUP_SQE128.bits(), P::IORING_SETUP_CQE32.bits());
     let sizes: &[u32] = if th { &[1, 2, 3, 4, 8] } else { &[1, 2, 4] };
@@ -402,13 +449,14 @@ pub fn run(args: &Args) -> Report {
     }
     {
         let cases = held_cases(th);
-        planned += cases.len() as u64;
+        planned += cases.len() as u64 + 8;
         items.push(isolated("held-entry", move || {
             let mut r = Report::new();
             crate::ops::install_watchdog();
             for (e, f, x, t) in cases {
                 held_case(e, f, x, t, &mut r, false);
             }
+            needs_wakeup_truth_table(&mut r);
             r
         }));
     }
@@ -434,6 +482,10 @@ pub fn run(args: &Args) -> Report {
 
 pub fn replay(v: &Value, r: &mut Report) {
     crate::ops::install_watchdog();
+    if v["scenario"].as_str() == Some("needs_wakeup-truth-table") {
+        needs_wakeup_truth_table(r);
+        return;
+    }
     if v["scenario"].as_str() == Some("held-entry") {
         held_case(v["ring"].as_u64().unwrap_or(1) as u32, v["flags"].as_u64().unwrap_or(0) as u32, v["parked"].as_u64().unwrap_or(1) as u32, v["taken_with_enter_in_between"].as_u64().unwrap_or(1) as u32, r, true);
         return;
